@@ -24,8 +24,16 @@ func init() {
 		}
 		n := int(in["n"].(float64))
 		if via, _ := in["via"].(string); via == "decoded" {
-			counts, errs, panics, msg := pickViaDecoded(v, n)
+			counts, errs, panics, msg, _ := pickViaDecoded(v, n, false)
 			c.emit(obj{"ws": in["ws"], "n": n, "via": "decoded", "obs": obj{"counts": counts, "errs": errs, "panics": panics, "panicMsg": msg}})
+			return
+		} else if via == "interleaved" {
+			var with []uint32
+			for _, x := range in["with"].([]interface{}) {
+				with = append(with, uint32(x.(float64)))
+			}
+			_, _, _, _, altCounts := pickViaDecoded(with, n, true)
+			c.emit(obj{"ws": in["ws"], "n": n, "via": "interleaved", "with": in["with"], "obs": obj{"counts": altCounts, "errs": n - altCounts[0] - altCounts[1], "panics": 0, "panicMsg": ""}})
 			return
 		}
 		counts, errs, panics, msg := pickVia(v, n)
@@ -89,7 +97,10 @@ func pickVia(ws []uint32, n int) (counts []int, errs, panics int, panicMsg strin
 // lists, in ONE virtual host, two weighted routes that do not match the call (an exact path), then the weighted route
 // under test, then another weighted route; the decoded table is served as a named route table. Whatever the decoder
 // computes per route must be that route's own.
-func pickViaDecoded(ws []uint32, n int) (counts []int, errs, panics int, panicMsg string) {
+// With `alt`, every call is followed by a call of another method that a second weighted route ([1,1]) of the same table
+// serves: the split of each route must be its own, however calls to different routes alternate (nothing is shared
+// between routes).
+func pickViaDecoded(ws []uint32, n int, alt bool) (counts []int, errs, panics int, panicMsg string, altCounts []int) {
 	stub := newStub()
 	useBackend(stub)
 	idx := map[string]int{}
@@ -110,13 +121,13 @@ func pickViaDecoded(ws []uint32, n int) (counts []int, errs, panics int, panicMs
 	}
 	rcfg := &v3routepb.RouteConfiguration{Name: "rc", VirtualHosts: []*v3routepb.VirtualHost{{Name: "vh", Routes: []*v3routepb.Route{
 		weighted("/never-1", []uint32{3, 4}, func(i int) string { return fmt.Sprintf("other-a%d", i) }),
-		weighted("/never-2", []uint32{1, 1}, func(i int) string { return fmt.Sprintf("other-b%d", i) }),
+		weighted("/pkg.svc/alt", []uint32{1, 1}, func(i int) string { return fmt.Sprintf("other-b%d", i) }),
 		weighted("/", ws, func(i int) string { return fmt.Sprintf("c%d", i) }),
 		weighted("/", []uint32{5}, func(i int) string { return "shadowed" }),
 	}}}}
 	res, err := xdsresource.UnmarshalRDS([]*anypb.Any{mustAny(rcfg)})
 	if err != nil || res["rc"] == nil {
-		return make([]int, len(ws)), n, 0, ""
+		return make([]int, len(ws)), n, 0, "", nil
 	}
 	stub.res[stubKey{xdsresource.RouteConfigType, "rc"}] = res["rc"]
 	stub.res[stubKey{xdsresource.ListenerType, "svc"}] = &xdsresource.ListenerResource{
@@ -124,16 +135,28 @@ func pickViaDecoded(ws []uint32, n int) (counts []int, errs, panics int, panicMs
 	}
 	// the cached table is rendered as JSON first (what a dump of the manager does): reading a resource must not change it
 	if _, jerr := json.MarshalIndent(map[string]interface{}{"rc": res["rc"]}, "", "    "); jerr != nil {
-		return make([]int, len(ws)), n, 0, ""
+		return make([]int, len(ws)), n, 0, "", nil
 	}
 	router := xdssuite.NewXDSRouter()
 	to := rpcinfo.NewEndpointInfo("svc", "method", nil, nil)
 	ri := rpcinfo.NewRPCInfo(nil, to, rpcinfo.NewInvocation("svc", "method", "pkg"), rpcinfo.NewRPCConfig(), nil)
+	riAlt := rpcinfo.NewRPCInfo(nil, to, rpcinfo.NewInvocation("svc", "alt", "pkg"), rpcinfo.NewRPCConfig(), nil)
 	counts = make([]int, len(ws))
+	altCounts = make([]int, 2)
 	ctx := context.Background()
 	for i := 0; i < n; i++ {
 		var rr *xdssuite.RouteResult
 		var rerr error
+		if alt {
+			if _, _ = recoverTo(func() { rr, rerr = router.Route(ctx, riAlt) }); rerr == nil && rr != nil {
+				switch rr.ClusterPicked {
+				case "other-b0":
+					altCounts[0]++
+				case "other-b1":
+					altCounts[1]++
+				}
+			}
+		}
 		p, msg := recoverTo(func() { rr, rerr = router.Route(ctx, ri) })
 		switch {
 		case p:
@@ -257,12 +280,18 @@ func runC09(c *ctx) {
 		if len(v) == 0 {
 			continue
 		}
-		counts, errs, panics, msg := pickViaDecoded(v, n)
+		alt := k%4 == 1
+		counts, errs, panics, msg, altCounts := pickViaDecoded(v, n, alt)
 		ws := make([]uint64, len(v))
 		for i, w := range v {
 			ws[i] = uint64(w)
 		}
 		c.count("via-decoder", 1)
 		c.emit(obj{"ws": ws, "n": n, "via": "decoded", "obs": obj{"counts": counts, "errs": errs, "panics": panics, "panicMsg": msg}})
+		if alt {
+			// the other route's own split, sampled in strict alternation with this one
+			c.count("interleaved-routes", 1)
+			c.emit(obj{"ws": []uint64{1, 1}, "n": n, "via": "interleaved", "with": ws, "obs": obj{"counts": altCounts, "errs": n - altCounts[0] - altCounts[1], "panics": 0, "panicMsg": ""}})
+		}
 	}
 }
